@@ -209,15 +209,43 @@ def _ignore_sigpipe():
     signal.signal(signal.SIGPIPE, signal.SIG_IGN)
 
 
+def big_iostream_tools(tier):
+    """outputs of several stdio buffers (> 3 x 4096 bytes): a failed write that is NOT the last flush must still be reported.
+    (mmhsum and order_independent_hash only ever print one line.)"""
+    npar = 400 if tier == "thorough" else 150
+    big_gw = b"<TEXT>\n" + b"".join(b"<P>\nparagraph %d of the story, padded with some more words to fill buffers\nsecond line\n</P>\n" % i for i in range(npar)) + b"</TEXT>\n"
+    big_pu = b"".join(b"Hello World number %d\n" % i for i in range(900 if tier == "thorough" else 150))
+    huge_pu = b"".join(b"Line %d of a text that is long enough to need many buffers of standard output\n" % i for i in range(4000))
+    huge_gw = b"<TEXT>\n" + b"".join(b"<P>\nparagraph %d of the story, padded with some more words to fill buffers\nsecond line\n</P>\n" % i for i in range(4000)) + b"</TEXT>\n"
+    return ([tr.Tool("process_unicode", ["--lower"], big_pu, kind="iostream", label="process_unicode-big"),
+             tr.Tool("gigaword_unwrap", [], big_gw, kind="iostream", label="gigaword_unwrap-big")],
+            [tr.Tool("process_unicode", ["--lower"], huge_pu, kind="iostream", label="process_unicode-300k"),
+             tr.Tool("gigaword_unwrap", [], huge_gw, kind="iostream", label="gigaword_unwrap-300k")])
+
+
 def phase_kernel(c, bindir, hx, base, kernel_cases):
     tools = [t for t in tr.catalogue() if t.label in base]
+    # the iostream tools again with outputs of many stdio buffers
+    for t in big_iostream_tools(c.tier)[1]:
+        with tr.Scratch(SCRATCH, t) as w:
+            rc, out, err = tr.run(t.argv(bindir, w, hx), t.stdin, cwd=w)
+        if rc == 0 and len(out) > 3 * 4096:
+            base[t.label] = ({"stdout": out}, [])
+            tools.append(t)
+        else:
+            c.broken.append("large-output run of %s failed (rc=%s, %d bytes)" % (t.label, rc, len(out)))
     jobs = []
     for t in tools:
         full = base[t.label][0]["stdout"]
         if full:
             jobs.append((t, "devfull", None))
             jobs.append((t, "epipe", None))
-            limits = range(0, len(full) + 1) if (t.kind == "iostream" or c.tier == "thorough") else sorted(set([0, 1, len(full) // 2, len(full) - 1, len(full)]))
+            if len(full) > 20000:
+                # every stdio buffer boundary +-1, and inside the first / a middle / the last buffer
+                limits = sorted(set([0, 1, 4095, 4096, 4097, 8192, 12288, len(full) // 2, len(full) - 4097, len(full) - 4096, len(full) - 1, len(full)]
+                                    + [k * 4096 for k in range(1, min(12, len(full) // 4096))]))
+            else:
+                limits = range(0, len(full) + 1) if (t.kind == "iostream" or c.tier == "thorough") else sorted(set([0, 1, len(full) // 2, len(full) - 1, len(full)]))
             for n in limits:
                 jobs.append((t, "fsize", n))
         if t.reads_stdin:
@@ -260,7 +288,7 @@ def phase_kernel(c, bindir, hx, base, kernel_cases):
         bucket = "kernel/%s/%s" % (t.kind, kind)
         c.count((t.label, kind, n), bucket=bucket)
         rep = {"tool": t.label, "argv": t.argv("$BIN", "$W", "$HX"), "stdin_hex": hexs(t.stdin), "files_hex": {k: hexs(v) for k, v in t.files.items()}, "status": rc}
-        if t.kind == "iostream" and rc != "timeout":
+        if t.kind == "iostream" and rc != "timeout" and len(full) <= 4096:
             kernel_cases.append((t, kind, n, rc, len(full), len(t.stdin)))
         if rc == "timeout":
             c.violation("hang-under-fault: %s hangs with %s" % (t.label, kind), dict(rep, fault=kind))
@@ -316,10 +344,7 @@ def phase_strace(c, bindir, hx, strace_cases):
         return
     tools = [t for t in tr.catalogue() if t.kind == "iostream"]
     # outputs of several stdio buffers: a failure in an EARLY write(2) followed by successful ones must still be reported
-    big_pu = b"".join(b"Hello World number %d\n" % i for i in range(900 if c.tier == "thorough" else 150))
-    big_gw = b"<TEXT>\n" + b"".join(b"<P>\nparagraph %d of the story\nsecond line\n</P>\n" % i for i in range(400 if c.tier == "thorough" else 60)) + b"</TEXT>\n"
-    tools += [tr.Tool("process_unicode", ["--lower"], big_pu, kind="iostream", label="process_unicode-big"),
-              tr.Tool("gigaword_unwrap", [], big_gw, kind="iostream", label="gigaword_unwrap-big")]
+    tools += big_iostream_tools(c.tier)[0]
     jobs = []
     clean = {}
     strace_failures = []
@@ -488,6 +513,32 @@ def phase_children(c, bindir, hx, child_cases):
                     c.violation("wrapper-hang: %s does not terminate when its child cannot be executed (%r)" % (name, prog), rep)
                 elif rc == 0:
                     c.violation("child-failure-exit-0: %s exits 0 although its child %r could not be executed" % (name, prog), rep)
+    # the wrapper process already owns an unrelated child (inherited through exec) that exits 0 before the captive child ends:
+    # the status that counts is the captive child's
+    sjobs = []
+    for name, args, stdin in [(n, a, i) for (n, a, i) in WRAPPERS if not a or n != "cache"]:
+        for tail, want in (("exit 7", 7), ("exit 0", 0), ("kill -9 $$", "nonzero"), ("kill -15 $$", "nonzero")):
+            sjobs.append((name, args, stdin, tail, want))
+
+    def swork(j):
+        name, args, stdin, tail, want = j
+        inner = " ".join([os.path.join(bindir, name)] + args + ["sh", "-c", "'cat; sleep 0.6; %s'" % tail])
+        rc, out, err = tr.run(["sh", "-c", "sleep 0.1 & exec " + inner], stdin, timeout=20)
+        return j, rc
+
+    with ThreadPoolExecutor(WORKERS) as ex:
+        sresults = list(ex.map(swork, sjobs))
+    for (name, args, stdin, tail, want), rc in sresults:
+        c.count(("sibling", name, tail), bucket="child/%s/unrelated-sibling-exits-first" % name)
+        rep = {"wrapper": name, "stdin_hex": hexs(stdin), "status": rc,
+               "how": "sh -c \"sleep 0.1 & exec %s %s sh -c 'cat; sleep 0.6; %s'\" < stdin; echo $?" % (name, " ".join(args), tail),
+               "child": "answers everything, then after 0.6 s: " + tail, "sibling": "an unrelated child of the same process (sleep 0.1) exits 0 first"}
+        if rc == "timeout":
+            c.violation("wrapper-hang: %s with an unrelated sibling child" % name, rep)
+        elif want == "nonzero" and rc == 0:
+            c.violation("child-signal-exit-0: %s exits 0 although its child killed itself (%s); an unrelated child of the wrapper had exited 0 earlier" % (name, tail), rep)
+        elif isinstance(want, int) and rc != want:
+            c.violation("child-code-not-propagated: child exited with %d, %s returned %s (an unrelated child of the wrapper process exited 0 earlier)" % (want, name, rc), rep)
     # warc_parallel (not one of the three, same Launch/wait machinery): failures must not be success
     for term in ["exit:0", "exit:3", "sig:9", "sig:15"]:
         rc, out, err = tr.run([os.path.join(bindir, "warc_parallel"), "-j", "2", vchild, "-1", term, "drain"], wp_in, timeout=20)
